@@ -11,8 +11,14 @@ from harness import common as H
 KIND_MENUS = {'all': (0, 1, 2), 'int': (0,), 'float': (1,), 'intfloat': (0, 1)}
 
 
+GAME = {'variant': 'distinct'}
+
+
 def game_values(shape):
-    """distinct generic (mu, sigma, name) per player"""
+    """(mu, sigma, name) per player: distinct generic values, or - variant 'fresh' - the same default values for
+    everybody (value-equal ratings and teams: exposes bookkeeping done with == / list.index instead of identity)"""
+    if GAME['variant'] == 'fresh':
+        return [[(25.0, 25.0 / 3.0, f"p{i}_{j}") for j in range(n)] for i, n in enumerate(shape)]
     vals = []
     c = 0
     for i, n in enumerate(shape):
@@ -91,6 +97,7 @@ def iter_outcomes(spec, ctx, cfg=None, call=None):
     from sx import core, kinds
     core.install()
     key, shape, selector = spec['model'], tuple(spec['shape']), spec['selector']
+    GAME['variant'] = spec.get('game', 'distinct')
     menu = KIND_MENUS[spec.get('kinds', 'all')]
     n = len(shape)
     base = []
@@ -117,7 +124,8 @@ def iter_outcomes(spec, ctx, cfg=None, call=None):
         return dict(m=m, teams=teams, objs=objs, ids=ids, before=before, d0=d0, out=out, exc=exc, W=W)
 
     stats = {}
-    opts = {'deadline': ctx.deadline, 'branch_timeout': 10000}
+    # int_rounding: float() of an int-kinded value above 2^53 is only known up to half an ulp (models precision loss)
+    opts = {'deadline': ctx.deadline, 'branch_timeout': 10000, 'int_rounding': True}
     try:
         for (kind, val), eng in core.iter_paths(run, base, draw_ranks(n, menu), opts=opts, stats=stats):
             yield kind, val, eng
@@ -133,6 +141,23 @@ def witness_ranks(eng, n):
     if r != 'sat':
         return None
     return [kinds.concretise(m, f'r{i}', f'k{i}') for i in range(n)]
+
+
+def nasty_vectors(n):
+    """rank/score vectors that are hard for a solver model to hit exactly but that break value-losing conversions:
+    integers that collide when rounded to double, values closer than 1e-9 relative, near-integers"""
+    base = [2 ** 53, 2 ** 53 + 1, 2 ** 53 + 2, 10 ** 17, 10 ** 17 + 1, -(2 ** 53) - 1]
+    out = []
+    out.append([base[i % 3] for i in range(n)][::-1])
+    out.append([base[i % 3] for i in range(n)])
+    out.append([10 ** 9 + i for i in range(n)])
+    out.append([10 ** 9 + i for i in range(n)][::-1])
+    out.append([1.0 + i * 2.0 ** -40 for i in range(n)])
+    out.append([1.0 + i * 2.0 ** -40 for i in range(n)][::-1])
+    out.append([1 + 0.25 * i for i in range(n)][::-1])
+    out.append([0.3 * i for i in range(n)][::-1])
+    out.append([-0.5 * i for i in range(n)])
+    return [{'vals': encode_vals(v)} for v in out]
 
 
 def encode_vals(vals):
